@@ -244,7 +244,11 @@ def union_rule(prog, rep):
         return
     lp = sweep_l[0]
     ev = norm(lp.target)
-    ifs = [x for x in lp.body if isinstance(x, ast.If)]
+    # `if not acc: acc.append(e) else: <the sweep step>` (what a seed guard with `continue` is normalised to): the step is the else
+    lp_body = lp.body
+    if len(lp_body) == 1 and isinstance(lp_body[0], ast.If) and lp_body[0].orelse and len(lp_body[0].body) == 1 and isinstance(lp_body[0].body[0], ast.Expr) and isinstance(lp_body[0].body[0].value, ast.Call) and isinstance(lp_body[0].body[0].value.func, ast.Attribute) and lp_body[0].body[0].value.func.attr == "append" and norm(lp_body[0].test) in (f"not {norm(lp_body[0].body[0].value.func.value)}", f"len({norm(lp_body[0].body[0].value.func.value)}) == 0") and len(lp_body[0].body[0].value.args) == 1 and norm(lp_body[0].body[0].value.args[0]) == ev:
+        lp_body = lp_body[0].orelse
+    ifs = [x for x in lp_body if isinstance(x, ast.If)]
 
     def _seed_guard(x):
         # `if not acc: acc.append(e); continue` at the top of the sweep: the first event opens the output (same as seeding
@@ -266,7 +270,7 @@ def union_rule(prog, rep):
     core = tt.operand if neg else tt
     okt = isinstance(core, ast.Call) and isinstance(core.func, ast.Attribute) and core.func.attr == "gap" and len(core.args) == 1
     last = None
-    for n in lp.body:
+    for n in lp_body:
         if isinstance(n, ast.Assign) and norm(n.value).endswith("[-1]"):
             last = norm(n.targets[0])
     periods = set()
